@@ -424,6 +424,35 @@ void cmb_timeseries_sort_t(struct cmb_timeseries *tsp)
 }
 
 /*
+ * Weighted quantile of samples sorted by x-value, given the cumulative weights:
+ * the first sample at which the cumulative weight reaches wq. No more than wq
+ * of the weight lies strictly below it and no more than the rest strictly
+ * above it, whatever the weight pattern (one dominating sample, zero weights,
+ * a single sample). If the cumulative weight equals wq exactly at a sample,
+ * any value up to the next sample qualifies and the midpoint is used, like the
+ * median of an even number of equally weighted samples.
+ */
+static double timeseries_quantile(const uint64_t un,
+                                  const double xa[un],
+                                  const double wcum[un],
+                                  const double wq)
+{
+    cmb_assert_release(un > 0u);
+
+    uint64_t ui = 0u;
+    while ((ui < un - 1u) && (wcum[ui] < wq)) {
+        ui++;
+    }
+
+    double r = xa[ui];
+    if ((wcum[ui] == wq) && (ui < un - 1u)) {
+        r = 0.5 * (xa[ui] + xa[ui + 1u]);
+    }
+
+    return r;
+}
+
+/*
  * Takes a copy before sorting, leaving tsp unchanged.
  */
 double cmb_timeseries_median(const struct cmb_timeseries *tsp)
@@ -447,17 +476,7 @@ double cmb_timeseries_median(const struct cmb_timeseries *tsp)
         wcum[ui] = wsum;
     }
 
-    const double wmid = 0.5 * wsum;
-    double r = 0.0;
-     for (uint64_t ui = 0u; ui < un - 1; ui++) {
-        if ((wcum[ui] <= wmid) && (wcum[ui + 1] > wmid)) {
-            cmb_assert_debug(wcum[ui + 1] > wcum[ui]);
-            r = dsp->xa[ui] + (dsp->xa[ui + 1]
-                            - dsp->xa[ui]) * (wmid - wcum[ui])
-                               / (wcum[ui + 1] - wcum[ui]);
-            break;
-        }
-    }
+    const double r = timeseries_quantile(un, dsp->xa, wcum, 0.5 * wsum);
 
     cmi_free(wcum);
     cmb_timeseries_reset(&tmp_ts);
@@ -490,35 +509,9 @@ void cmb_timeseries_fivenum_print(const struct cmb_timeseries *tsp,
         wcum[ui] = wsum;
     }
 
-    const double w025 = 0.25 * wsum;
-    const double w050 = 0.50 * wsum;
-    const double w075 = 0.75 * wsum;
-
-    double x025 = 0.0;
-    double x050 = 0.0;
-    double x075 = 0.0;
-    for (uint64_t ui = 0u; ui < un - 1; ui++) {
-        if ((wcum[ui] <= w025) && (wcum[ui + 1] > w025)) {
-            cmb_assert_debug(wcum[ui + 1] > wcum[ui]);
-            x025 = dsp->xa[ui] + (dsp->xa[ui + 1]
-                               - dsp->xa[ui]) * (w025 - wcum[ui])
-                                  / (wcum[ui + 1] - wcum[ui]);
-        }
-
-        if ((wcum[ui] <= w050) && (wcum[ui + 1] > w050)) {
-            cmb_assert_debug(wcum[ui + 1] > wcum[ui]);
-            x050 = dsp->xa[ui] + (dsp->xa[ui + 1]
-                               - dsp->xa[ui]) * (w050 - wcum[ui])
-                                  / (wcum[ui + 1] - wcum[ui]);
-        }
-
-        if ((wcum[ui] <= w075) && (wcum[ui + 1] > w075)) {
-            cmb_assert_debug(wcum[ui + 1] > wcum[ui]);
-            x075 = dsp->xa[ui] + (dsp->xa[ui + 1]
-                               - dsp->xa[ui]) * (w075 - wcum[ui])
-                                  / (wcum[ui + 1] - wcum[ui]);
-        }
-    }
+    const double x025 = timeseries_quantile(un, dsp->xa, wcum, 0.25 * wsum);
+    const double x050 = timeseries_quantile(un, dsp->xa, wcum, 0.50 * wsum);
+    const double x075 = timeseries_quantile(un, dsp->xa, wcum, 0.75 * wsum);
 
     cmb_assert_debug((xmin <= x025) && (x025 <= x050)
                   && (x050 <= x075) && (x075 <= xmax));
